@@ -1,1 +1,2 @@
 import RoGen.Catalogue
+import RoGen.Kernel
